@@ -117,6 +117,7 @@ func TestReplay_MCP(t *testing.T) {
 			verifkit.ReportReplay(rf, out.Failure)
 		}
 	}
+	replayMCLI()
 	for _, rf := range verifkit.ReplayFiles("TestProp_C18_MCPApply") {
 		var c M18Case
 		if err := json.Unmarshal(rf.Case, &c); err != nil {
